@@ -46,6 +46,8 @@ def check(run):
     run.rule_text = "F-PATH insertion obligations + F-UNIT roles + exact polynomial identity"
     run.assumptions = ["every corner of a face is the start node of exactly one of its edges (face_edges are the closed ring)", "_insert_pt_in_latlonbox grows the box to contain the inserted point"]
     _insertions(run, P)
+    _edge_extremes(run, P)
+    _box_growth(run, P)
     _extreme(run, P)
 
 
@@ -266,3 +268,84 @@ def _extreme(run, P):
             run.violation("F-PATH/extreme-latitude", c, where(f, g[0]), "the chord point is not normalised before its latitude is taken")
     else:
         run.violation("F-PATH/extreme-latitude", c, where(f), "the interior candidate is not restricted to 0 < d_a_max < 1")
+
+
+def _edge_extremes(run, P):
+    """for every great-circle edge (is_GCA) the pair (lat_max, lat_min) is (extreme_gca_latitude(edge, 'max'), extreme_gca_latitude(edge, 'min')):
+    no further condition may replace it by the endpoint latitudes (an arc longer than 90 degrees bulges beyond both ends even when they straddle the equator)"""
+    f = P.func(f"{GEO}:_populate_face_latlon_bound")
+    loops = [s2 for s2 in iter_stmts(f.node.body) if isinstance(s2, ast.For)]
+    n = 0
+    for loop in loops:
+        branch = "pole" if any(isinstance(x, ast.Name) and x.id == "pole_point" for x in ast.walk(loop)) else "normal"
+        asg = next((st for st in iter_stmts(loop.body) if isinstance(st, ast.Assign) and isinstance(st.targets[0], ast.Tuple) and [norm(e) for e in st.targets[0].elts] == ["lat_max", "lat_min"]), None)
+        c = f"{f.key}:{branch}-branch:edge-extremes"
+        if asg is None:
+            run.incomplete("F-PATH/edge-extremes", c, where(f, loop), "assignment of (lat_max, lat_min) not found")
+            continue
+        n += 1
+        v = asg.value
+        probs = []
+        if not isinstance(v, ast.IfExp):
+            probs.append("(lat_max, lat_min) is not chosen by the edge type")
+        else:
+            if norm(v.test) != "is_GCA":
+                probs.append(f"the great-circle extremes are used only under '{norm(v.test)}': for the other great-circle edges the endpoint latitudes are taken, which misses the bulge of arcs longer than 90 degrees")
+            body = v.body.elts if isinstance(v.body, ast.Tuple) else []
+            kinds = []
+            for b in body:
+                if isinstance(b, ast.Call) and (dotted(b.func) or [""])[-1] == "extreme_gca_latitude" and len(b.args) >= 2 and "n1_cart" in norm(b.args[0]) and "n2_cart" in norm(b.args[0]):
+                    kinds.append(b.args[1].value if isinstance(b.args[1], ast.Constant) else None)
+            if kinds != ["max", "min"]:
+                probs.append(f"great-circle branch yields {[norm(b)[:40] for b in body]}; expected (extreme(edge, 'max'), extreme(edge, 'min'))")
+        if probs:
+            run.violation("F-PATH/edge-extremes", c, where(f, asg), "; ".join(probs))
+        else:
+            run.holds("F-PATH/edge-extremes", c, where(f, asg), "(lat_max, lat_min) = great-circle extremes of the edge whenever is_GCA")
+    run.floor("F-PATH/edge-extremes", n, 2)
+
+
+def _box_growth(run, P):
+    """_insert_pt_in_latlonbox only GROWS the latitude interval: the lower bound is assigned min(old, .) or -pi/2, the upper bound max(old, .) or +pi/2
+    (or both from the point while the box is still the fill value)"""
+    f = P.func(f"{GEO}:_insert_pt_in_latlonbox")
+    c = f"{f.key}:latitude-bounds-grow"
+    probs = []
+    n = 0
+    def cls_lower(e):
+        t = norm(e).replace(" ", "")
+        return t.startswith("min(latlon_box[0][0],") or t in ("-0.5*np.pi", "-np.pi/2", "-(0.5*np.pi)")
+    def cls_upper(e):
+        t = norm(e).replace(" ", "")
+        return t.startswith("max(latlon_box[0][1],") or t in ("0.5*np.pi", "np.pi/2")
+    from .c03 import _guards_of
+    for st in iter_stmts(f.node.body):
+        if isinstance(st, ast.Assign) and isinstance(st.targets[0], ast.Subscript):
+            t = norm(st.targets[0]).replace(" ", "")
+            if t == "latlon_box[0][0]":
+                n += 1
+                if not cls_lower(st.value):
+                    probs.append(f"lower latitude bound assigned {norm(st.value)[:50]}")
+            elif t == "latlon_box[0][1]":
+                n += 1
+                if not cls_upper(st.value):
+                    probs.append(f"upper latitude bound assigned {norm(st.value)[:50]} (not max(old, .) nor +pi/2: a south-pole point would lower it to -pi/2 and discard the maxima collected so far)")
+            elif t == "latlon_box[0]":
+                n += 1
+                v = st.value
+                elts = v.elts if isinstance(v, (ast.List, ast.Tuple)) else (v.args[0].elts if isinstance(v, ast.Call) and v.args and isinstance(v.args[0], (ast.List, ast.Tuple)) else None)
+                g = _guards_of(f.node.body, st) or []
+                init = any("INT_FILL_VALUE" in norm(te) and tr for te, tr in g)
+                if elts is None or len(elts) != 2:
+                    probs.append(f"latitude interval assigned {norm(v)[:50]}")
+                elif init:
+                    if not (norm(elts[0]) == norm(elts[1]) == "lat_pt"):
+                        probs.append("an empty box is not initialised with the point's latitude")
+                elif not (cls_lower(elts[0]) and cls_upper(elts[1])):
+                    probs.append(f"latitude interval assigned [{norm(elts[0])[:40]}, {norm(elts[1])[:40]}]: not [min(old, lat), max(old, lat)]")
+    if n == 0:
+        run.incomplete("F-PATH/box-growth", c, where(f), "no store into the latitude interval found")
+    elif probs:
+        run.violation("F-PATH/box-growth", c, where(f), "; ".join(probs))
+    else:
+        run.holds("F-PATH/box-growth", c, where(f), f"all {n} stores into the latitude interval can only widen it")
